@@ -24,7 +24,7 @@ Definition wr_ok (st : pstate) (wr : list item) : Prop :=
   (todo st <> [] /\ valid_unit (pend st) /\ unit_items (pend st) = wr ++ todo st).
 
 Record Inv_c (st : pstate) : Prop := mkInvC {
-  ic_order : nflushed_s st <= nflushed st /\ nflushed st < walcur st;
+  ic_order : nflushed_s st <= nflushed st /\ nflushed st <= sealed st /\ sealed st <= walcur st;
   ic_acked : (acked st <= length (units st))%nat;
   ic_units : forall u, In u (units st) -> valid_unit (snd u) /\ fst u <= walcur st;
   ic_wal : exists wr, wr_ok st wr /\
@@ -40,7 +40,8 @@ Record Inv_c (st : pstate) : Prop := mkInvC {
   ic_cover : cells_refine (cells_of (flushed_units (nflushed st) (units st))) (lsm_cells (pfs st) (live st));
   ic_ptr : forall c, In c (cells_of (units st)) \/ (todo st <> [] /\ In c (pend st)) ->
      deref (pfs st) c = Some (fst c);
-  ic_ts : todo st <> [] -> forall u, In u (units st) -> unit_ts (snd u) < unit_ts (pend st)
+  ic_ts : todo st <> [] -> forall u, In u (units st) -> unit_ts (snd u) < unit_ts (pend st);
+  ic_seal : todo st <> [] -> sealed st < walcur st
 }.
 
 (* ---- small tools ---- *)
@@ -165,7 +166,7 @@ Proof.
   rewrite (Hn x eq_refl). exact H.
 Qed.
 
-Ltac psimp := cbn [pfs units pend todo acked walcur vlogcur nflushed nflushed_s live live_s usedtabs
+Ltac psimp := cbn [pfs units pend todo acked walcur vlogcur nflushed nflushed_s live live_s usedtabs sealed
                    set_fs apply_event dir dur cur img sized upd fname_eqb] in *.
 
 Lemma ptr_ok_deref : forall c s cl, ptr_ok c s cl = true -> deref s cl = Some (fst cl).
@@ -179,13 +180,13 @@ Qed.
 Lemma inv_c_begin : forall c st cells st', Inv_c st -> pstep c st (PBegin cells) = Some st' -> Inv_c st'.
 Proof.
   intros c st cells st' I H. cbn [pstep] in H. apply ok_some in H. destruct H as [G ->].
-  rewrite !Bool.andb_true_iff in G. destruct G as [[[[[[[[[G1 G2] G3] G4] G5] G6] G7] G8] G9] G10].
-  apply is_nil_true in G1. apply Bool.negb_true_iff in G2. apply is_nil_false in G2.
+  rewrite !Bool.andb_true_iff in G. destruct G as [[[[[[[[[[G1 G1s] G2] G3] G4] G5] G6] G7] G8] G9] G10].
+  apply is_nil_true in G1. apply N.ltb_lt in G1s. apply Bool.negb_true_iff in G2. apply is_nil_false in G2.
   apply Bool.negb_true_iff in G3. apply N.eqb_neq in G3.
   assert (Hv : valid_unit cells).
   { split; [exact G2|split; [exact G3|]]. intros x Hx. rewrite forallb_forall in G4. apply N.eqb_eq. apply G4. exact Hx. }
   assert (Hne : unit_items cells <> []). { unfold unit_items. intro E. apply app_eq_nil in E. destruct E; discriminate. }
-  destruct I as [Io Ia Iu [wr [Hwr Iw]] Id Im Il Ic Ip It]. constructor; psimp; try assumption.
+  destruct I as [Io Ia Iu [wr [Hwr Iw]] Id Im Il Ic Ip It Is]. constructor; psimp; try assumption.
   - exists []. split.
     + right. split; [exact Hne|split; [exact Hv|reflexivity]].
     + intros f Hf. destruct (Iw f Hf) as [Hle Hd]. split; [exact Hle|].
@@ -197,24 +198,34 @@ Proof.
   - intros cl [Hc|[_ Hc]]; [apply Ip; left; exact Hc|].
     rewrite forallb_forall in G5. apply (ptr_ok_deref c). apply G5. exact Hc.
   - intros _ u Hu. rewrite forallb_forall in G10. apply N.ltb_lt. apply G10. exact Hu.
+  - intros _. exact G1s.
 Qed.
 
 Lemma inv_c_ack : forall c st st', Inv_c st -> pstep c st PAck = Some st' -> Inv_c st'.
 Proof.
   intros c st st' I H. cbn [pstep] in H. apply ok_some in H. destruct H as [G ->].
-  destruct I as [Io Ia Iu Iw Id Im Il Ic Ip It]. constructor; psimp; try assumption. lia.
+  destruct I as [Io Ia Iu Iw Id Im Il Ic Ip It Is]. constructor; psimp; try assumption. lia.
+Qed.
+
+Lemma inv_c_seal : forall c st st', Inv_c st -> pstep c st PSeal = Some st' -> Inv_c st'.
+Proof.
+  intros c st st' I H. cbn [pstep] in H. apply ok_some in H. destruct H as [G ->].
+  rewrite !Bool.andb_true_iff in G. destruct G as [[G1 G2] G3]. apply is_nil_true in G1.
+  destruct I as [Io Ia Iu Iw Id Im Il Ic Ip It Is]. constructor; psimp; try assumption.
+  - lia.
+  - intro Hn. contradiction.
 Qed.
 
 Lemma inv_c_syncdir : forall c st st', Inv_c st -> pstep c st (PE SyncDir) = Some st' -> Inv_c st'.
 Proof.
   intros c st st' I H. cbn [pstep] in H. inversion H; subst; clear H.
-  destruct I as [Io Ia Iu Iw Id Im Il Ic Ip It]. constructor; psimp; assumption.
+  destruct I as [Io Ia Iu Iw Id Im Il Ic Ip It Is]. constructor; psimp; assumption.
 Qed.
 
 Lemma inv_c_syncfile : forall c st f st', Inv_c st -> pstep c st (PE (SyncFile f)) = Some st' -> Inv_c st'.
 Proof.
   intros c st f st' I H. cbn [pstep] in H. apply ok_some in H. destruct H as [G ->].
-  destruct I as [Io Ia Iu [wr [Hwr Iw]] Id Im Il Ic Ip It].
+  destruct I as [Io Ia Iu [wr [Hwr Iw]] Id Im Il Ic Ip It Is].
   destruct f; constructor; psimp; try assumption; try (exists wr; split; assumption).
   - lia.
   - exists wr. split; [exact Hwr|]. intros f Hf. destruct (Iw f Hf) as [Hle Hd]. split; [exact Hle|].
@@ -243,9 +254,9 @@ Qed.
 Lemma inv_c_wal_create : forall c st f st', Inv_c st -> pstep c st (PE (Create (Wal f))) = Some st' -> Inv_c st'.
 Proof.
   intros c st f st' I H. cbn [pstep] in H. apply ok_some in H. destruct H as [G ->].
-  rewrite !Bool.andb_true_iff in G. destruct G as [[[[G1 G2] G3] G4] G5].
-  apply N.eqb_eq in G1. apply is_nil_true in G2. apply Bool.negb_true_iff in G3.
-  destruct I as [Io Ia Iu [wr [Hwr Iw]] Id Im Il Ic Ip It]. constructor; psimp; rewrite ?G3; psimp; try assumption.
+  rewrite !Bool.andb_true_iff in G. destruct G as [[[[[G1 G1s] G2] G3] G4] G5].
+  apply N.eqb_eq in G1. apply N.eqb_eq in G1s. apply is_nil_true in G2. apply Bool.negb_true_iff in G3.
+  destruct I as [Io Ia Iu [wr [Hwr Iw]] Id Im Il Ic Ip It Is]. constructor; psimp; rewrite ?G3; psimp; try assumption.
   - lia.
   - intros u Hu. destruct (Iu u Hu) as [H1 H2]. split; [exact H1|lia].
   - exists []. split; [left; split; [exact G2|reflexivity]|].
@@ -262,14 +273,15 @@ Proof.
   - intros f' Hlt Hle. destruct (N.eq_dec f' f) as [->|Hne]; [left; reflexivity|right; apply Id; lia].
   - destruct Im as [Im1 Im2]. split; [right; exact Im1|exact Im2].
   - intros x Hx. destruct (Il x Hx) as [H1 H2]. split; [right; exact H1|exact H2].
+  - intro Hn. contradiction.
 Qed.
 
 Lemma inv_c_wal_init : forall c st f st', Inv_c st -> pstep c st (PE (Init (Wal f))) = Some st' -> Inv_c st'.
 Proof.
   intros c st f st' I H. cbn [pstep] in H. apply ok_some in H. destruct H as [G ->].
-  rewrite !Bool.andb_true_iff in G. destruct G as [[G1 G2] G3].
-  apply N.eqb_eq in G1. subst f. apply Bool.negb_true_iff in G3.
-  destruct I as [Io Ia Iu [wr [Hwr Iw]] Id Im Il Ic Ip It]. constructor; psimp; try assumption.
+  rewrite !Bool.andb_true_iff in G. destruct G as [[[G1 G1s] G2] G3].
+  apply N.eqb_eq in G1. subst f. apply N.ltb_lt in G1s. apply Bool.negb_true_iff in G3.
+  destruct I as [Io Ia Iu [wr [Hwr Iw]] Id Im Il Ic Ip It Is]. constructor; psimp; try assumption.
   exists wr. split; [exact Hwr|]. intros f Hf. destruct (Iw f Hf) as [Hle Hd]. split; [exact Hle|].
   unfold upd. cbn [fname_eqb]. destruct (N.eq_dec f (walcur st)) as [->|Hne].
   - rewrite N.eqb_refl. left. split; [reflexivity|].
@@ -297,8 +309,9 @@ Proof.
   apply ok_some in H. destruct H as [G Hst].
   rewrite !Bool.andb_true_iff in G. destruct G as [[[G1 G2] G3] G4].
   apply N.eqb_eq in G1. subst f. apply item_eqb_eq in G2. subst y. apply memf_In in G3.
-  destruct I as [Io Ia Iu [wr [Hwr Iw]] Id Im Il Ic Ip It].
+  destruct I as [Io Ia Iu [wr [Hwr Iw]] Id Im Il Ic Ip It Is].
   destruct Hwr as [[Hn _]|[_ [Hpv Hpe]]]; [congruence|]. rewrite Et in Hpe.
+  assert (Hsl : sealed st < walcur st) by (apply Is; rewrite Et; discriminate).
   assert (Hcur : cur (pfs st) (Wal (walcur st)) = recs_of (walcur st) (units st) ++ wr).
   { destruct (Iw _ G3) as [_ [[_ Hc]|[Hs _]]]; [rewrite N.eqb_refl in Hc; exact Hc|congruence]. }
   destruct rest as [|z rest]; subst st'.
@@ -320,6 +333,7 @@ Proof.
       destruct Hc as [Hc|Hc]; [apply Ip; left; exact Hc|]. cbn [cells_of flat_map snd] in Hc. rewrite app_nil_r in Hc.
       apply Ip. right. split; [rewrite Et; discriminate|exact Hc].
     + intro Hn. contradiction.
+    + intro Hn. contradiction.
   - constructor; psimp; try assumption.
     + exists (wr ++ [x]). split.
       * right. psimp. split; [discriminate|split; [exact Hpv|]]. rewrite Hpe, <- app_assoc. reflexivity.
@@ -332,13 +346,14 @@ Proof.
            ++ rewrite N.eqb_refl in E. discriminate.
     + intros cl [Hc|[_ Hc]]; apply Ip; [left; exact Hc|right; split; [rewrite Et; discriminate|exact Hc]].
     + intros _. apply It. rewrite Et. discriminate.
+    + intros _. exact Hsl.
 Qed.
 
 Lemma inv_c_wal_trunc : forall c st f st', Inv_c st -> pstep c st (PE (Truncate0 (Wal f))) = Some st' -> Inv_c st'.
 Proof.
   intros c st f st' I H. cbn [pstep] in H. apply ok_some in H. destruct H as [G ->].
   rewrite !Bool.andb_true_iff in G. destruct G as [G1 G2]. apply N.leb_le in G1.
-  destruct I as [Io Ia Iu [wr [Hwr Iw]] Id Im Il Ic Ip It]. constructor; psimp; try assumption.
+  destruct I as [Io Ia Iu [wr [Hwr Iw]] Id Im Il Ic Ip It Is]. constructor; psimp; try assumption.
   exists wr. split; [exact Hwr|]. intros f' Hf. destruct (Iw f' Hf) as [Hle Hd]. split; [exact Hle|].
   unfold upd. cbn [fname_eqb]. destruct (f' =? f) eqn:E.
   - apply N.eqb_eq in E. subst f'. right. split; [reflexivity|split; [reflexivity|left; exact G1]].
@@ -349,7 +364,7 @@ Lemma inv_c_wal_unlink : forall c st f st', Inv_c st -> pstep c st (PE (Unlink (
 Proof.
   intros c st f st' I H. cbn [pstep] in H. apply ok_some in H. destruct H as [G ->].
   rewrite !Bool.andb_true_iff in G. destruct G as [G1 G2]. apply N.leb_le in G1.
-  destruct I as [Io Ia Iu [wr [Hwr Iw]] Id Im Il Ic Ip It]. constructor; psimp; try assumption.
+  destruct I as [Io Ia Iu [wr [Hwr Iw]] Id Im Il Ic Ip It Is]. constructor; psimp; try assumption.
   - exists wr. split; [exact Hwr|]. intros f' Hf. apply removef_In in Hf. apply Iw. apply Hf.
   - intros f' Hlt Hle. apply removef_In. split; [apply Id; assumption|]. intro E. inversion E. lia.
   - destruct Im as [Im1 Im2]. split; [|exact Im2]. apply removef_In. split; [exact Im1|discriminate].
@@ -362,7 +377,7 @@ Lemma inv_c_vlog_create : forall c st f st', Inv_c st -> pstep c st (PE (Create 
 Proof.
   intros c st f st' I H. cbn [pstep] in H. apply ok_some in H. destruct H as [G ->].
   rewrite !Bool.andb_true_iff in G. destruct G as [[G1 G2] G3]. apply Bool.negb_true_iff in G2.
-  destruct I as [Io Ia Iu [wr [Hwr Iw]] Id Im Il Ic Ip It]. constructor; psimp; rewrite ?G2; psimp; try assumption.
+  destruct I as [Io Ia Iu [wr [Hwr Iw]] Id Im Il Ic Ip It Is]. constructor; psimp; rewrite ?G2; psimp; try assumption.
   - exists wr. split; [exact Hwr|]. intros f' [E|Hf]; [discriminate|]. apply Iw. exact Hf.
   - intros f' Hlt Hle. right. apply Id; assumption.
   - destruct Im as [Im1 Im2]. split; [right; exact Im1|exact Im2].
@@ -376,7 +391,7 @@ Qed.
 Lemma inv_c_vlog_init : forall c st f st', Inv_c st -> pstep c st (PE (Init (Vlog f))) = Some st' -> Inv_c st'.
 Proof.
   intros c st f st' I H. cbn [pstep] in H. apply ok_some in H. destruct H as [G ->].
-  destruct I as [Io Ia Iu [wr [Hwr Iw]] Id Im Il Ic Ip It]. constructor; psimp; try assumption.
+  destruct I as [Io Ia Iu [wr [Hwr Iw]] Id Im Il Ic Ip It Is]. constructor; psimp; try assumption.
   exists wr. split; assumption.
 Qed.
 
@@ -389,7 +404,7 @@ Lemma inv_c_vlog_append : forall c st f x st', Inv_c st -> pstep c st (PE (Appen
 Proof.
   intros c st f x st' I H. cbn [pstep] in H. destruct x; try discriminate.
   apply ok_some in H. destruct H as [G ->].
-  destruct I as [Io Ia Iu [wr [Hwr Iw]] Id Im Il Ic Ip It]. constructor; psimp; try assumption.
+  destruct I as [Io Ia Iu [wr [Hwr Iw]] Id Im Il Ic Ip It Is]. constructor; psimp; try assumption.
   - exists wr. split; assumption.
   - intros cl Hc. apply (deref_stable _ _ _ _ (Ip cl Hc)). intros p _ Hin. psimp. split; [exact Hin|].
     intros y Hy. unfold upd. cbn [fname_eqb]. destruct (vp_fid p =? f) eqn:E; [|exact Hy].
@@ -407,7 +422,7 @@ Lemma inv_c_sst_create : forall c st id st', Inv_c st -> pstep c st (PE (Create 
 Proof.
   intros c st id st' I H. cbn [pstep] in H. apply ok_some in H. destruct H as [G ->].
   rewrite !Bool.andb_true_iff in G. destruct G as [G1 G2]. apply Bool.negb_true_iff in G2.
-  destruct I as [Io Ia Iu [wr [Hwr Iw]] Id Im Il Ic Ip It].
+  destruct I as [Io Ia Iu [wr [Hwr Iw]] Id Im Il Ic Ip It Is].
   assert (Hfr : forall x, In x (live st) -> fst x <> id).
   { intros x Hx E. subst id. destruct (Il x Hx) as [H1 _]. apply memf_false in G2. contradiction. }
   constructor; psimp; rewrite ?G2; psimp; try assumption.
@@ -423,7 +438,7 @@ Qed.
 Lemma inv_c_sst_init : forall c st id st', Inv_c st -> pstep c st (PE (Init (Sst id))) = Some st' -> Inv_c st'.
 Proof.
   intros c st id st' I H. cbn [pstep] in H. apply ok_some in H. destruct H as [G ->].
-  destruct I as [Io Ia Iu [wr [Hwr Iw]] Id Im Il Ic Ip It]. constructor; psimp; try assumption.
+  destruct I as [Io Ia Iu [wr [Hwr Iw]] Id Im Il Ic Ip It Is]. constructor; psimp; try assumption.
   - exists wr. split; assumption.
   - intros x Hx. destruct (Il x Hx) as [H1 H2]. split; [exact H1|]. unfold upd. cbn [fname_eqb].
     destruct (fst x =? id); [reflexivity|exact H2].
@@ -435,7 +450,7 @@ Proof.
   apply ok_some in H. destruct H as [G ->].
   rewrite !Bool.andb_true_iff in G. destruct G as [[[[G1 G2] G3] G4] G5]. apply Bool.negb_true_iff in G4.
   pose proof (not_live_frame st id G4) as Hfr.
-  destruct I as [Io Ia Iu [wr [Hwr Iw]] Id Im Il Ic Ip It]. constructor; psimp; try assumption.
+  destruct I as [Io Ia Iu [wr [Hwr Iw]] Id Im Il Ic Ip It Is]. constructor; psimp; try assumption.
   - exists wr. split; assumption.
   - rewrite (lsm_cells_ext (pfs st)); [exact Ic|]. intros y Hy. psimp. unfold upd. cbn [fname_eqb].
     pose proof (Hfr y Hy) as Hn. apply N.eqb_neq in Hn. rewrite Hn. reflexivity.
@@ -446,7 +461,7 @@ Proof.
   intros c st id st' I H. cbn [pstep] in H. apply ok_some in H. destruct H as [G ->].
   rewrite !Bool.andb_true_iff in G. destruct G as [[G1 G2] G3]. apply Bool.negb_true_iff in G2.
   pose proof (not_live_frame st id G2) as Hfr.
-  destruct I as [Io Ia Iu [wr [Hwr Iw]] Id Im Il Ic Ip It]. constructor; psimp; try assumption.
+  destruct I as [Io Ia Iu [wr [Hwr Iw]] Id Im Il Ic Ip It Is]. constructor; psimp; try assumption.
   - exists wr. split; assumption.
   - intros x Hx. destruct (Il x Hx) as [H1 H2]. split; [exact H1|]. unfold upd. cbn [fname_eqb].
     pose proof (Hfr x Hx) as Hn. apply N.eqb_neq in Hn. rewrite Hn. exact H2.
@@ -459,7 +474,7 @@ Proof.
   intros c st id st' I H. cbn [pstep] in H. apply ok_some in H. destruct H as [G ->].
   rewrite !Bool.andb_true_iff in G. destruct G as [[G1 G2] G3]. apply Bool.negb_true_iff in G2.
   pose proof (not_live_frame st id G2) as Hfr.
-  destruct I as [Io Ia Iu [wr [Hwr Iw]] Id Im Il Ic Ip It]. constructor; psimp; try assumption.
+  destruct I as [Io Ia Iu [wr [Hwr Iw]] Id Im Il Ic Ip It Is]. constructor; psimp; try assumption.
   - exists wr. split; [exact Hwr|]. intros f' Hf. apply removef_In in Hf. apply Iw. apply Hf.
   - intros f' Hlt Hle. apply removef_In. split; [apply Id; assumption|discriminate].
   - destruct Im as [Im1 Im2]. split; [|exact Im2]. apply removef_In. split; [exact Im1|discriminate].
@@ -492,7 +507,7 @@ Lemma inv_c_wal_cells : forall st f, Inv_c st -> In (Wal f) (dir (pfs st)) ->
   \/ (sized (pfs st) (Wal f) = false /\ cur (pfs st) (Wal f) = [] /\
       (f <= nflushed_s st \/ units_of f (units st) = [])).
 Proof.
-  intros st f [Io Ia Iu [wr [Hwr Iw]] Id Im Il Ic Ip It] Hf. destruct (Iw f Hf) as [_ [[Hs Hc]|[Hs [Hc Hd]]]].
+  intros st f [Io Ia Iu [wr [Hwr Iw]] Id Im Il Ic Ip It Is] Hf. destruct (Iw f Hf) as [_ [[Hs Hc]|[Hs [Hc Hd]]]].
   - left. split; [exact Hs|]. rewrite Hc.
     assert (Hv : forall u, In u (units st) -> valid_unit (snd u)) by (intros u Hu; apply Iu; exact Hu).
     destruct Hwr as [[_ ->]|[Hn [Hp He]]].
@@ -523,7 +538,7 @@ Lemma inv_c_manifest : forall c st x st', Inv_c st -> pstep c st (PE (Append Man
 Proof.
   intros c st x st' I H. cbn [pstep] in H. destruct x as [| | |cs|]; try discriminate.
   destruct (apply_changes (live st) cs) as [live'|] eqn:Ea; [|discriminate].
-  pose proof I as I0. destruct I as [Io Ia Iu [wr [Hwr Iw]] Id Im Il Ic Ip It].
+  pose proof I as I0. destruct I as [Io Ia Iu [wr [Hwr Iw]] Id Im Il Ic Ip It Is].
   assert (Hman : replay_manifest [] (cur (pfs st) Manifest ++ [IM cs]) = Some live').
   { rewrite replay_manifest_app. destruct Im as [_ ->]. cbn [replay_manifest]. rewrite Ea. reflexivity. }
   destruct (is_nil (deletes cs)) eqn:En.
@@ -532,7 +547,7 @@ Proof.
     apply ok_some in H. destruct H as [G ->].
     rewrite !Bool.andb_true_iff in G. destruct G as [[[[G1 G2] G3] G4] G5].
     cbn [creates flat_map forallb app] in G2. rewrite !Bool.andb_true_iff in G2. destruct G2 as [[[G2a G2b] G2c] _].
-    apply memf_In in G2a. apply N.ltb_lt in G3.
+    apply memf_In in G2a. apply N.leb_le in G3.
     cbn [apply_changes] in Ea. destruct (tab_mem id (live st)) eqn:Etm; [discriminate|]. inversion Ea; subst live'; clear Ea.
     unfold same_cells in G4. apply Bool.andb_true_iff in G4. destruct G4 as [G4a G4b].
     apply cells_incl_incl in G4a, G4b.
@@ -608,7 +623,7 @@ Qed.
 
 Theorem inv_c_step : forall c st pe st', Inv_c st -> pstep c st pe = Some st' -> Inv_c st'.
 Proof.
-  intros c st pe st' I H. destruct pe as [e|cells|].
+  intros c st pe st' I H. destruct pe as [e|cells| |].
   - destruct e as [f|f|f x|f|f|f|a b|].
     + destruct f; [eapply inv_c_wal_create|eapply inv_c_vlog_create|eapply inv_c_sst_create|discriminate]; eassumption.
     + destruct f; [eapply inv_c_wal_init|eapply inv_c_vlog_init|eapply inv_c_sst_init|discriminate]; eassumption.
@@ -620,11 +635,12 @@ Proof.
     + eapply inv_c_syncdir; eassumption.
   - eapply inv_c_begin; eassumption.
   - eapply inv_c_ack; eassumption.
+  - eapply inv_c_seal; eassumption.
 Qed.
 
 Lemma inv_c_init : forall c, Inv_c (init c).
 Proof.
-  intro c. constructor; cbn [init pfs units pend todo acked walcur vlogcur nflushed nflushed_s live live_s init_fs dir cur sized].
+  intro c. constructor; cbn [init pfs units pend todo acked walcur vlogcur nflushed nflushed_s live live_s sealed init_fs dir cur sized].
   - lia.
   - cbn. lia.
   - intros u [].
@@ -636,6 +652,7 @@ Proof.
   - split; [intros x []|intros x []].
   - intros cl [[]|[Hn _]]. contradiction.
   - intros _ u [].
+  - intro Hn. contradiction.
 Qed.
 
 Theorem inv_c_run : forall c tr st st', Inv_c st -> run c st tr = Some st' -> Inv_c st'.
@@ -689,7 +706,7 @@ Proof. intros. unfold units_of. rewrite filter_In, N.eqb_eq. reflexivity. Qed.
 Theorem crash_recovers : forall c st, Inv_c st -> zero_ok c (pfs st) ->
   exists R, crash_result c st = Some R /\ refines (map fst (cells_of (units st))) R.
 Proof.
-  intros c st I Hz. pose proof I as I0. destruct I as [Io Ia Iu Iw Id [Im1 Im2] Il Ic Ip It].
+  intros c st I Hz. pose proof I as I0. destruct I as [Io Ia Iu Iw Id [Im1 Im2] Il Ic Ip It Is].
   unfold crash_result, crash, recover. apply memf_In in Im1. rewrite Im1, Im2.
   rewrite (logs_ok_true c _ Hz).
   assert (Ht : tables_ok (pfs st) (live st) = true).
@@ -732,7 +749,7 @@ Qed.
 Lemma inprogress_fresh : forall st e, Inv_c st -> todo st <> [] ->
   In e (map fst (pend st)) -> ~ In e (map fst (cells_of (units st))).
 Proof.
-  intros st e I Hn He Hin. destruct I as [Io Ia Iu [wr [Hwr Iw]] Id Im Il Ic Ip It].
+  intros st e I Hn He Hin. destruct I as [Io Ia Iu [wr [Hwr Iw]] Id Im Il Ic Ip It Is].
   destruct Hwr as [[Ht _]|[_ [[_ [_ Hpv]] _]]]; [contradiction|].
   apply in_map_iff in He. destruct He as [cp [<- Hcp]].
   apply in_map_iff in Hin. destruct Hin as [cu [Heq Hcu]]. apply In_cells_of in Hcu. destruct Hcu as [u [Hu Hcu]].
